@@ -277,6 +277,22 @@ def dp_large_layer_cases(draw):
     return case
 
 
+@st.composite
+def rnp_five_cases(draw):
+    """rnp with five bins - the only shape in which its odd step (a first bin from the inclusion-exclusion tree) is followed by its
+    even step (a two-way split of the rest, each half split again): 9-10 evenly spread items, cheap enough for thousands of cases."""
+    seed = draw(st.integers(0, 2 ** 48))
+    n = 9 if seed % 3 else 10
+    hi = [20, 60, 60, 200, 1000][(seed >> 3) % 5]
+    return {"alg": "rnp", "values": S.splitmix(seed >> 8, n, 1, hi), "numbins": 5, "pres": "list", "nseed": 0, "profile": f"rnp-5-bins-uniform-{hi}"}
+
+
+def valid_rnp_five(case):
+    v = case.get("values")
+    return (case.get("alg") == "rnp" and case.get("numbins") in (3, 4, 5) and isinstance(v, list) and 1 <= len(v) <= 10
+            and all(isinstance(x, int) and x >= 0 for x in v))
+
+
 def valid_dp_large(case):
     v = case.get("values")
     return (case.get("alg") == "dp" and isinstance(v, list) and 1 <= len(v) <= 10 and all(isinstance(x, int) and x >= 0 for x in v)
@@ -317,6 +333,10 @@ def legs(tier):
             "hypothesis: snp / rnp with exactly 4 bins and 9 items (the smallest shape with a nested recursion level) on values 1..200, 1..10^6 "
             "and near-equal large values; same oracle and non-triviality rule",
             strategy=nested_cases(), n_quick=1400, n_thorough=30000, valid=valid_deep, floor=0.1),
+        Leg("rnp-five-bins", evaluate,
+            "hypothesis: rnp with exactly 5 bins on 9-10 evenly spread items (values up to 20 ... 1000): the one shape in which its odd and "
+            "its even step are nested; same oracle and rule", strategy=rnp_five_cases(), n_quick=4000, n_thorough=60000,
+            valid=valid_rnp_five, floor=0.03, shards=16),
         Leg("dp-large-layers", evaluate,
             "hypothesis: dp with 3 bins x 9-10 items and 4 bins x 7-8 items (layers of more than a thousand states), objectives max-min, "
             "difference, k-largest, k-smallest, min-max; two thirds of the inputs selected (by the oracle, out of 80 candidates) as the one "
